@@ -29,6 +29,7 @@ Counter p_range_overflow("probe.range_does_not_fit");
 Counter p_moved_from_reuse("probe.moved_from_container_reassigned");
 Counter p_copy_then_mutate("probe.mutation_with_live_copy");
 Counter p_cap0("probe.capacity_zero_container");
+Counter p_self_assign("probe.self_copy_assignment");
 Counter p_range_overwrite("probe.range_insert_before_end");
 Counter p_emplace_alias("probe.emplace_argument_aliases_own_element");
 Counter p_moved_from_walk("probe.moved_from_container_observed");
@@ -744,6 +745,20 @@ struct Exec
         case K_MOVE_ASSIGN:
         {
             source = static_cast<int>(((op.a[1] % NSLOT) + NSLOT) % NSLOT);
+            if (source == si && op.kind == K_COPY_ASSIGN && T::copyable && normal(sl))
+            {
+                // self copy-assignment leaves the container as it is
+                p_self_assign++;
+                if constexpr (T::copyable)
+                {
+                    const FV& src = *sl.p;
+                    res = guarded([&] { *sl.p = src; });
+                }
+                expect = sl.m;
+                if (res != RS_OK)
+                    resync = true;
+                break;
+            }
             if (source == si || !sl.m.alive || !normal(s[source]) ||
                 (op.kind == K_COPY_ASSIGN && !T::copyable))
             {
@@ -868,7 +883,10 @@ struct Exec
             {
                 NoFault nf0;
                 T tmp(v);
-                res = guarded([&] { sl.p->insert(std::move(tmp)); });
+                size_t ret = 0;
+                res = guarded([&] { ret = sl.p->insert(std::move(tmp)); });
+                if (res == RS_OK && !must_raise && ret != sl.m.seq.size())
+                    fail("C07/contents", op, opi, presize, precap, "insert(T&&) returned wrong index");
             }
             else if (op.kind == K_INSERT_LVALUE)
             {
@@ -877,7 +895,10 @@ struct Exec
                 {
                     NoFault nf0;
                     const T tmp(v);
-                    res = guarded([&] { sl.p->insert(tmp); });
+                    size_t ret = 0;
+                    res = guarded([&] { ret = sl.p->insert(tmp); });
+                    if (res == RS_OK && !must_raise && ret != sl.m.seq.size())
+                        fail("C07/contents", op, opi, presize, precap, "insert(const T&) returned wrong index");
                     if (tmp.id != v || tmp.origin != O_CALLER)
                         fail("C07/contents", op, opi, presize, precap, "insert(const T&) modified its argument");
                 }
@@ -892,7 +913,10 @@ struct Exec
                 {
                     NoFault nf0;
                     const T tmp(v);
-                    res = guarded([&] { sl.p->push_back(tmp); });
+                    size_t ret = 0;
+                    res = guarded([&] { ret = sl.p->push_back(tmp); });
+                    if (res == RS_OK && !must_raise && ret != sl.m.seq.size())
+                        fail("C07/contents", op, opi, presize, precap, "push_back(const T&) returned wrong index");
                 }
             }
             if (!must_raise)
@@ -1128,9 +1152,9 @@ struct Exec
                 NoFault nf;
                 seen.reserve(16);
             }
-            int how = static_cast<int>(op.a[1] % 5);
+            int how = static_cast<int>(op.a[1] % 6);
             if (how == 4 && !T::copyable)
-                how = 3;
+                how = 5;
             if (!sl.m.seq.empty())
                 p_riter++;
             // bounded walk: a reverse range that never reaches its end is reported, not followed
@@ -1166,6 +1190,12 @@ struct Exec
                 case 3:
                 {
                     auto r = nitro::lang::reverse(*sl.p);
+                    visit(r.begin(), r.end());
+                    break;
+                }
+                case 5:
+                {
+                    auto r = nitro::lang::reverse(c); // const lvalue
                     visit(r.begin(), r.end());
                     break;
                 }
@@ -1626,7 +1656,7 @@ public:
                 op.a[1] = pick_index(t.size, t.cap);
                 break;
             case K_RITERATE:
-                op.a[1] = static_cast<int64_t>(rng.below(5));
+                op.a[1] = static_cast<int64_t>(rng.below(6));
                 break;
             case K_WRITE:
                 op.a[1] = static_cast<int64_t>(rng.below(MAXCAP));
@@ -1637,6 +1667,11 @@ public:
             case K_MOVE_ASSIGN:
             {
                 int from = static_cast<int>(rng.below(NSLOT));
+                if (from == si && kind == K_COPY_ASSIGN && elem != 1)
+                {
+                    op.a[1] = from; // self copy-assignment
+                    break;
+                }
                 if (from == si || !g[from].alive || g[from].moved)
                 {
                     op.kind = K_ITERATE;
